@@ -48,6 +48,7 @@ def setup_paths(src: str) -> None:
     deps = os.path.join(VERIF, '.deps')
     if os.path.isdir(deps) and deps not in sys.path:
         sys.path.append(deps)
+    os.environ['VERIF_SRC_ACTIVE'] = src
     import zeroconf  # noqa
 
     zf = os.path.realpath(zeroconf.__file__)
